@@ -98,7 +98,7 @@ Groups == {
 
 Init == /\ st = "new"
         /\ \E g \in Groups : f = g.f /\ fv \in g.fvs /\ x \in g.xs
-        /\ c \in (IF f = "flat" THEN BOOLEAN ELSE {FALSE})
+        /\ c \in (IF f \in {"flat", "vop1"} THEN BOOLEAN ELSE {FALSE})   \* the mode matters to FLAT and to VOP1 opcode 56
 Next == st = "new" /\ st' = "done" /\ UNCHANGED <<f, fv, x, c>>
 Spec == Init /\ [][Next]_vars
 
